@@ -28,6 +28,7 @@ typedef struct {
     char *ds;                 /* one element (elsize bytes) per event: drop_sum in the routine's type */
     int elsize;
     int overflow;
+    int dropnzp, ncalls2;     /* phase 2 of the hook: pivots replaced inside ilu_?drop_row, number of such reports */
 } iluevlog_t;
 extern void (*slu_verif_ilu_pivot_hook)(int phase, int dtype, int jcol, double u, int usepr, int pivrow,
                                         int diagind, int milu, const void *drop_sum, double fill_tol, int ncand,
